@@ -48,6 +48,11 @@ def run(ctx):
         aliasing(ctx, R, N, loc)
         sanitisers(ctx, R, N, loc)
         layout(ctx, R, N, loc)
+    # documented boundary values of the parameters, taken concretely (they decide guards that are symbolic above)
+    for label, kw in (("chi=0", {"gbs_threshold": 0}), ("M*=0", {"gbm_mobility": 0}), ("chi=0.9", {"gbs_threshold": alg.const(9) / 10})):
+        R = driver.run_update(ctx, N=2, nsteps=2, param_overrides=kw)
+        sanitisers(ctx, R, 2, loc, tag=label + ":")
+        appends(ctx, R, 2, loc, tagx=label + ":")
     for fail_at in (1, 2, 3):
         R = driver.run_update(ctx, N=2, nsteps=3, fail_at=fail_at)
         muts = driver.history_mutations(R)
@@ -73,8 +78,8 @@ RULES = {
 }
 
 
-def appends(ctx, R, N, loc):
-    tag = f"N={N}"
+def appends(ctx, R, N, loc, tagx=""):
+    tag = f"{tagx}N={N}"
     if R.exc is not None:
         ctx.ob("C01.append-once", tag, False, f"update raised {R.exc!r} on the generic path", loc)
         return
@@ -103,12 +108,12 @@ def aliasing(ctx, R, N, loc):
            f"previous snapshot unchanged: {same}; in-place events on it: {[(e.kind, e.loc) for e in hits]}; still first in history: {first}", loc)
 
 
-def sanitisers(ctx, R, N, loc):
+def sanitisers(ctx, R, N, loc, tag=""):
     if R.exc is not None:
         return
     m = R.mineral
     A, f = m.attrs["orientations"][-1], m.attrs["fractions"][-1]
-    ctx.ob("C01.shape", f"N={N}", getattr(A, "shape", None) == (N, 3, 3) and getattr(f, "shape", None) == (N,),
+    ctx.ob("C01.shape", f"{tag}N={N}", getattr(A, "shape", None) == (N, 3, 3) and getattr(f, "shape", None) == (N,),
            f"shapes {getattr(A, 'shape', None)}, {getattr(f, 'shape', None)}", loc)
     if not isinstance(A, np.ndarray) or not isinstance(f, np.ndarray):
         return
@@ -125,7 +130,7 @@ def sanitisers(ctx, R, N, loc):
             if not ok:
                 return False, f"stored orientation cell {list(i)} is not clipped to [-1, 1]: {short(c)}"
         return True, ""
-    ctx.check("C01.range", f"N={N}:orientations within [-1,1]", orient, loc)
+    ctx.check("C01.range", f"{tag}N={N}:orientations within [-1,1]", orient, loc)
 
     def fracs():
         cells_ = [alg.unfold_all(lift(x)) for x in f]
@@ -134,22 +139,75 @@ def sanitisers(ctx, R, N, loc):
         if v != "equal":
             return (False if v == "differ" else "inconclusive"), f"stored fractions do not sum to one identically: sum = {short(tot)}"
         for g, c in enumerate(cells_):
-            num, den = alg._as_fraction(c)
-            for part, nm in ((num, "numerator"), (den, "denominator")):
-                for mm, co in part.t.items():
-                    if co < 0:
-                        return False, f"fraction {g}: negative coefficient in {nm}: {short(c)}"
-                    for a, x in mm:
-                        if a.kind == "fn:clip":
-                            lo = a.args[1]
-                            if not (isinstance(lo, E) and lo.is_const() and lo.cval() >= 0):
-                                return False, f"fraction {g}: volume not clipped at zero: {short(c)}"
-                        elif a.kind == "fn:select":
-                            continue  # floor value or clipped volume; checked by C09
-                        elif not a.pos:
-                            return False, f"fraction {g}: {nm} contains an unclipped quantity {a!r}: {short(c)}"
+            ok, why = nonneg(c)
+            if not ok:
+                return False, f"fraction {g} is not non-negative by construction: {why}"
         return True, ""
-    ctx.check("C01.range", f"N={N}:fractions non-negative and normalised", fracs, loc)
+    ctx.check("C01.range", f"{tag}N={N}:fractions non-negative and normalised", fracs, loc)
+
+
+def nonneg(e, strict=False, depth=0):
+    """Sign analysis: is the normal form >= 0 (> 0 if strict) for all values of its atoms, by construction?
+    Sound, incomplete: sums/products of non-negative parts, even powers, clip with lower bound >= 0,
+    max-pattern select(x < a, a, x) with a >= 0, positive denominators."""
+    e = lift(e)
+    if not e.t:
+        return (not strict), "zero"
+    if depth > 12:
+        return False, "nesting too deep"
+    some_strict = False
+    for m, c in e.t.items():
+        if c < 0:
+            return False, f"negative coefficient in {short(E({m: c}), 80)}"
+        term_strict = True
+        for a, x in m:
+            if isinstance(x, int) and x % 2 == 0:
+                continue
+            need_strict = False  # a non-negative denominator keeps the sign wherever the quotient is defined
+            ok, why = atom_nonneg(a, need_strict, depth)
+            if not ok:
+                return False, why
+            if not atom_nonneg(a, True, depth)[0]:
+                term_strict = False
+        some_strict = some_strict or term_strict
+    if strict and not some_strict:
+        return False, "cannot show strict positivity"
+    return True, ""
+
+
+def atom_nonzero_poly(a, depth):
+    return a.kind == "poly" and nonneg(a.args[0], True, depth + 1)[0]
+
+
+def atom_nonneg(a, strict, depth):
+    k = a.kind
+    if k in ("psym", "pc", "euler"):
+        return True, ""
+    if k in ("abs", "root"):
+        return (not strict), "abs/root may vanish" if strict else ""
+    if k == "poly":
+        return nonneg(a.args[0], strict, depth + 1)
+    if k == "let":
+        return nonneg(a.defn, strict, depth + 1)
+    if k == "fn:clip":
+        lo = a.args[1]
+        if isinstance(lo, E) and lo.is_const() and lo.cval() >= 0:
+            return (not strict or lo.cval() > 0), "clipped at zero (may vanish)" if strict else ""
+        return False, f"not clipped from below at zero: {a!r}"[:160]
+    if k == "fn:select":
+        cond, x, y = a.args
+        okx, oky = nonneg(x, strict, depth + 1), nonneg(y, strict, depth + 1)
+        if okx[0] and oky[0]:
+            return True, ""
+        # max pattern: select(y < x, x, y) == max(x, y) >= x
+        if isinstance(cond, tuple) and len(cond) == 5 and cond[:3] == ("G", "cmp", "Lt") and isinstance(cond[3], E) and isinstance(cond[4], E):
+            if cond[3] == lift(y) and cond[4] == lift(x) and okx[0]:
+                return True, ""
+        if isinstance(cond, tuple) and len(cond) == 5 and cond[:3] == ("G", "cmp", "Gt") and isinstance(cond[3], E) and isinstance(cond[4], E):
+            if cond[3] == lift(x) and cond[4] == lift(y) and oky[0]:
+                return True, ""
+        return False, f"selection between {short(x, 50)} and {short(y, 50)} is not bounded below by zero"
+    return False, f"unconstrained quantity {a!r}"[:160]
 
 
 def layout(ctx, R, N, loc):
